@@ -92,8 +92,11 @@ class Ctx:
         b = self.build(flavour)
         while lines:
             rounds += 1
-            if rounds > 50:
-                raise Broken("harness keeps crashing: " + json.dumps([x for x in events if x.get("e") == "Fault"][-3:])[:1500])
+            if rounds > 25:
+                # the implementation crashes again and again: every Fault event is reported by the trace
+                # specification; the rest of the script is not executed
+                events.append({"e": "Fault", "sig": -2, "line": -1, "cmd": "more than 25 crashes: %d commands not executed" % len(lines), "inlib": 1})
+                return events
             script = "\n".join(lines) + "\n"
             e = dict(os.environ)
             e.update(env or {})
